@@ -25,7 +25,7 @@ pub fn prop() -> Prop {
          nodes (by address) of the reachable closure entering each named fragment once. \
          Non-trivial: the document has a fragment spread or an inline fragment without type condition; distinct by texts.",
     )
-    .random("pairs", check, |t| if t == Tier::Quick { 180_000 } else { 2_000_000 }, |t| if t == Tier::Quick { 700 } else { 1000 })
+    .random("pairs", check, |t| if t == Tier::Quick { 400_000 } else { 2_000_000 }, |t| if t == Tier::Quick { 700 } else { 1000 })
     .text(check_text)
     .case_timeout(120)
     .assumptions(&[
